@@ -67,7 +67,10 @@ def judge(ctx, h, obs, fresh):
                 continue
             same_spec = h[j]["obj"] == s["obj"]
             same_real = obs[j]["obj"] == o["obj"]
-            if not same_spec and (set(obs[j]["node_ids"]) & set(o["node_ids"])):
+            same_request = (h[j]["w"], h[j]["v"], sorted(h[j]["lazy"])) == (s["w"], s["v"], sorted(s["lazy"]))
+            # identical requests may be answered with one object whatever hit kind the model predicts (a missed
+            # superset hit is cached as an exact entry): only DIFFERENT requests must never share mutable parts
+            if not same_spec and not same_request and (set(obs[j]["node_ids"]) & set(o["node_ids"])):
                 ctx.violation(f"operations {j+1} and {i+1} return different constructions that share node objects",
                               case=case, expected="no shared mutable parts", observed={"a": obs[j]["node_ids"], "b": o["node_ids"]})
                 return
